@@ -539,13 +539,21 @@ Qed.
 Lemma allow_unmap t x : allow t x = allow t (unmap x).
 Proof. unfold allow. now rewrite unmap_idem. Qed.
 
-Lemma mapped_addr a : a < 2 ^ 32 -> unmap (V6, 65535 * 2 ^ 32 + a) = (V4, a).
+Lemma mapped_is a : a < 2 ^ 32 -> is_mapped (V6, 65535 * 2 ^ 32 + a) = true.
 Proof.
-  intros H. unfold unmap, is_mapped. cbn [fst snd].
+  intros H. unfold is_mapped. cbn [fst snd].
   replace (65535 * 2 ^ 32 + a) with (a + 65535 * 2 ^ 32) by lia.
-  rewrite N.div_add, N.div_small, N.add_0_l, N.eqb_refl by (auto; discriminate).
+  rewrite N.div_add, N.div_small, N.add_0_l by (auto; discriminate). apply N.eqb_refl.
+Qed.
+
+Lemma mapped_low a : a < 2 ^ 32 -> (65535 * 2 ^ 32 + a) mod 2 ^ 32 = a.
+Proof.
+  intros H. replace (65535 * 2 ^ 32 + a) with (a + 65535 * 2 ^ 32) by lia.
   rewrite N.mod_add, N.mod_small by (auto; discriminate). reflexivity.
 Qed.
+
+Lemma mapped_addr a : a < 2 ^ 32 -> unmap (V6, 65535 * 2 ^ 32 + a) = (V4, a).
+Proof. intros H. unfold unmap. rewrite (mapped_is a H). cbn [snd]. now rewrite (mapped_low a H). Qed.
 
 Lemma mapped_key a n : a < 2 ^ 32 -> n <= 32 ->
   norm_key (V6, 65535 * 2 ^ 32 + a, 96 + n) = Some (V4, a, n).
@@ -555,18 +563,15 @@ Proof.
   { unfold wf_prefix. cbn [paddr pfam pbits fst snd fbits]. apply andb_true_intro. split.
     - apply N.ltb_lt. assert (65535 * 2 ^ 32 + 2 ^ 32 <= 2 ^ 128) by (vm_compute; discriminate). lia.
     - apply N.leb_le. lia. }
-  rewrite W. cbn [pfam paddr pbits fst snd].
-  pose proof (mapped_addr a Ha) as U. unfold unmap in U. cbn [snd] in U.
-  destruct (is_mapped (V6, 65535 * 2 ^ 32 + a)); [|discriminate U]. injection U as U.
-  assert (B : 96 + n <? 96 = false) by (apply N.ltb_ge; lia). rewrite B, U.
+  rewrite W. cbn [pfam paddr pbits fst snd]. rewrite (mapped_is a Ha), (mapped_low a Ha).
+  assert (B : 96 + n <? 96 = false) by (apply N.ltb_ge; lia). rewrite B.
   replace (96 + n - 96) with n by lia. reflexivity.
 Qed.
 
 Lemma mapped_key_short a n : a < 2 ^ 32 -> n < 96 -> norm_key (V6, 65535 * 2 ^ 32 + a, n) = None.
 Proof.
   intros Ha Hn. apply norm_key_none. right. cbn [pfam paddr pbits fst snd]. split; [|exact Hn].
-  pose proof (mapped_addr a Ha) as U. unfold unmap in U.
-  destruct (is_mapped (V6, 65535 * 2 ^ 32 + a)); [reflexivity|discriminate U].
+  exact (mapped_is a Ha).
 Qed.
 
 (* ---- RemoteAllowList -------------------------------------------------------------------------- *)
@@ -840,7 +845,7 @@ Section NamesP.
     rewrite F. f_equal. apply Hu with p0. rewrite E. now left.
   Qed.
 
-  Lemma names_decide rules nm :
+  Lemma names_decide (rules : list (P * bool)) nm :
     (exists p a, In (p, a) rules /\ matches p nm = true) \/ (forall q b, In (q, b) rules -> matches q nm = false).
   Proof.
     destruct (first_match matches rules nm) as [a|] eqn:F.
@@ -875,3 +880,89 @@ Section NamesP.
     - right. exists p, q. split; eapply Permutation_in; eauto.
   Qed.
 End NamesP.
+
+(* ---- values that are not booleans --------------------------------------------------------------- *)
+
+Lemma all_vals_some {K : Type} (res : list (K * option bool)) es :
+  all_vals res = Some es <-> res = map (fun e => (fst e, Some (snd e))) es.
+Proof.
+  revert es. induction res as [|[k [v|]] r IH]; intros es; cbn [all_vals].
+  - split; [intros H; injection H as <-; reflexivity|]. destruct es; [reflexivity|discriminate].
+  - destruct (all_vals r) as [l|].
+    + split.
+      * intros H; injection H as <-. cbn [map fst snd]. f_equal. now apply IH.
+      * destruct es as [|[k' v'] es]; [discriminate|]. cbn [map fst snd]. intros H; injection H as -> -> H.
+        apply IH in H. now injection H as ->.
+    + split; [discriminate|]. destruct es as [|[k' v'] es]; [discriminate|]. cbn [map fst snd].
+      intros H; injection H as _ _ H. apply IH in H. discriminate.
+  - split; [discriminate|]. destruct es as [|[k' v'] es]; discriminate.
+Qed.
+
+Lemma all_vals_none {K : Type} (res : list (K * option bool)) :
+  all_vals res = None <-> exists k, In (k, None) res.
+Proof.
+  induction res as [|[k [v|]] r IH]; cbn [all_vals].
+  - split; [discriminate|intros [k []]].
+  - destruct (all_vals r) as [l|].
+    + split; [discriminate|]. intros [k' [E|Hin]]; [discriminate|]. destruct IH as [_ IH]. discriminate IH. eauto.
+    + split; [|reflexivity]. intros _. destruct IH as [IH _]. destruct (IH eq_refl) as [k' Hin]. exists k'. now right.
+  - split; [|reflexivity]. intros _. exists k. now left.
+Qed.
+
+Lemma raw_refused_iff res :
+  new_allow_list_raw res = None <->
+  (exists k, In (k, None) res) \/
+  exists es, res = map (fun e => (fst e, Some (snd e))) es /\ new_allow_list es = None.
+Proof.
+  unfold new_allow_list_raw. destruct (all_vals res) as [es|] eqn:E.
+  - split.
+    + intros H. right. exists es. split; [now apply all_vals_some|exact H].
+    + intros [[k Hin]|[es' [Hr Hn]]].
+      * assert (all_vals res = None) by (apply all_vals_none; eauto). congruence.
+      * apply all_vals_some in Hr. congruence.
+  - split; [|reflexivity]. intros _. left. now apply all_vals_none.
+Qed.
+
+(* the two consequences of [allow_default], in terms of membership *)
+Lemma allow_default_in es nes t x :
+  new_allow_list es = Some t -> norm_all es = Some nes -> wf_addr x = true ->
+  (forall q w, In (q, w) nes -> contains q (unmap x) = false) ->
+  (forall q w, In (q, w) nes -> pfam q = fst (unmap x) -> allow t x = negb w) /\
+  ((forall q w, In (q, w) nes -> pfam q <> fst (unmap x)) -> allow t x = true).
+Proof.
+  intros Ht Hn Wx Hno. destruct (allow_default _ _ _ _ Ht Hn Wx Hno) as [U A]. rewrite A. split.
+  - intros q w Hq Hf. now apply fam_default_in with q.
+  - intros H. now apply fam_default_none.
+Qed.
+
+Lemma norm_all_refused_iff es :
+  norm_all es = None <->
+  exists k v, In (k, v) es /\
+    (wf_prefix k = false \/ (is_mapped (pfam k, paddr k) = true /\ pbits k < 96)).
+Proof.
+  rewrite norm_all_none. split; intros [k [v [Hin H]]]; exists k, v; (split; [exact Hin|]); now apply norm_key_none.
+Qed.
+
+Lemma order_both es es' :
+  Permutation es es' ->
+  (new_allow_list es = None <-> new_allow_list es' = None) /\
+  (forall nes t t' x, norm_all es = Some nes -> consistent nes ->
+     new_allow_list es = Some t -> new_allow_list es' = Some t' -> wf_addr x = true ->
+     allow t x = allow t' x).
+Proof.
+  intros P. split.
+  - split; apply new_refused_perm; [exact P|now apply Permutation_sym].
+  - intros nes t t' x Hn Hc Ht Ht' Wx. eapply allow_perm; eauto.
+Qed.
+
+(* without consistency the answer does depend on the visiting order: 10.0.0.0/8 written twice *)
+Lemma order_refuted :
+  exists es es' t t' x, Permutation es es' /\ new_allow_list es = Some t /\ new_allow_list es' = Some t' /\
+    wf_addr x = true /\ allow t x <> allow t' x.
+Proof.
+  exists [((V4, 167772160, 8), true); ((V6, 65535 * 2 ^ 32 + 167772160, 104), false); ((V4, 0, 0), false)].
+  exists [((V6, 65535 * 2 ^ 32 + 167772160, 104), false); ((V4, 167772160, 8), true); ((V4, 0, 0), false)].
+  eexists. eexists. exists (V4, 167837955).
+  split; [apply perm_swap|]. split; [vm_compute; reflexivity|]. split; [vm_compute; reflexivity|].
+  split; [vm_compute; reflexivity|]. vm_compute. discriminate.
+Qed.
